@@ -122,16 +122,91 @@ def tagOfTree (b : Bytes) : Option Nat :=
   | some (.arrI (.int false _ k :: _), _) => some k
   | _ => none
 
-def lookup (table : List (String × List (Nat × String))) (ty : String) (k : Nat) : Option String :=
-  match table.find? (fun e => e.1 == ty) with
-  | none => none
-  | some e => (e.2.find? (fun p => p.1 == k)).map (·.2)
+/-- One tagged-sum decoder (regenerated: GV.Gen.SumTypes). -/
+structure SumInfo where
+  name : String
+  /-- where the tagged list sits inside the decoder's input (array item indices; [] = the input itself) -/
+  path : List Nat
+  /-- other items of the input that select this table (an era id, the tag of an enclosing
+      sum): (path, expected unsigned integer); when one differs nothing is predicted -/
+  guards : List (List Nat × Nat)
+  /-- variant produced for a tag the decoder does not know ("" = an error) -/
+  deflt : String
+  /-- tags for which nothing is predicted (no sample body is known) -/
+  unsure : List Nat
+  tags : List (Nat × String)
+deriving Repr
 
-/-- Variant a sum-type decoder selects for these bytes (`none` = error before
-    the body is looked at). -/
-def variantOf (table : List (String × List (Nat × String))) (ty : String) (vok : Bool) (b : Bytes) : Option String :=
-  match decodeIdFromList vok b with
+inductive Variant where
+  | err
+  | lab (s : String)
+  | unsure
+deriving Repr, DecidableEq
+
+def SumInfo.variant (e : SumInfo) (k : Nat) : Variant :=
+  match e.tags.find? (fun p => p.1 == k) with
+  | some p => .lab p.2
+  | none =>
+    if e.unsure.contains k then .unsure
+    else if e.deflt == "" then .err else .lab e.deflt
+
+def findSum (table : List SumInfo) (ty : String) : Option SumInfo :=
+  table.find? (fun e => e.name == ty)
+
+/-- item `i` of a list item (either header form) -/
+def child (t : Cbor) (i : Nat) : Option Cbor :=
+  match t with
+  | .arr _ xs => xs[i]?
+  | .arrI xs => xs[i]?
+  | _ => none
+
+/-- follow array indices down the tree -/
+def nav : Cbor → List Nat → Option Cbor
+  | t, [] => some t
+  | t, i :: rest =>
+    match child t i with
+    | some c => nav c rest
+    | none => none
+
+def guardOk (t : Cbor) (g : List Nat × Nat) : Bool :=
+  match nav t g.1 with
+  | some (.int false _ k) => k == g.2
+  | _ => false
+
+/-- The bytes a nested decoder is handed: the RawMessage of the item at `path`,
+    i.e. exactly the encoding of that sub-tree. `none` = the input is not
+    well-formed, has no such item, or a guard item differs. -/
+def subBytes (e : SumInfo) (b : Bytes) : Option Bytes :=
+  match e.path with
+  | [] => some b
+  | _ =>
+    match decode b with
+    | some (t, _) => if e.guards.all (guardOk t) then (nav t e.path).map enc else none
+    | none => none
+
+/-- Variant a sum-type decoder selects (`vok` = the oracle bit for the bytes of
+    the tagged list): the id `DecodeIdFromList` extracts, looked up in the table. -/
+def variantOfInfo (e : SumInfo) (vok : Bool) (b : Bytes) : Option Variant :=
+  match subBytes e b with
   | none => none
-  | some k => lookup table ty k
+  | some sb =>
+    match decodeIdFromList vok sb with
+    | none => some .err
+    | some k => some (e.variant k)
+
+def variantOf (table : List SumInfo) (ty : String) (vok : Bool) (b : Bytes) : Option Variant :=
+  match findSum table ty with
+  | none => none
+  | some e => variantOfInfo e vok b
+
+/-- What the property says: the variant named by the first element of the
+    tagged list, read off the tree without any fast path. -/
+def variantSpec (table : List SumInfo) (ty : String) (b : Bytes) : Option Variant :=
+  match findSum table ty with
+  | none => none
+  | some e =>
+    match subBytes e b with
+    | none => none
+    | some sb => (tagOfTree sb).map e.variant
 
 end GV.Model.CborId
